@@ -59,10 +59,25 @@ def plan(tier: str, seed: int) -> list[dict[str, Any]]:
 # known loopy-C-target limitations (stated by loopy itself); each is cited
 
 
-def loopy_limitation(stage: str, exc: BaseException | None, detail: str) -> str | None:
+def loopy_limitation(stage: str, exc: BaseException | None, detail: str,
+                     bp: Any = None) -> str | None:
+    import re
     msg = (str(exc) if exc is not None else "") + detail
     if "remainder and floordiv for floating-point types" in msg:
         return "loopy-C:float-floordiv-mod"
+    if "static inline static int isnani" in msg:
+        # loopy's preamble for isnan on an integer operand is not valid C
+        return "loopy-C:isnan-int-preamble-duplicate-static"
+    if stage == "loopy-preprocess" and re.search(
+            r"Rule '.*' invoked with \d+ arguments \(needs \d+\)", msg) and bp is not None:
+        # make_reduction_inames_unique merges two substitution rules with the same body but
+        # different arity; attributed to loopy only if the kernel AS PYTATO BUILT IT invokes
+        # every rule with its own arity
+        from vf.exec import ctarget
+        pre = getattr(bp, "vf_pre_t_unit", None)
+        if pre is not None and ctarget.subst_arity_consistent(pre) \
+                and not ctarget.subst_arity_consistent(bp.program):
+            return "loopy:substitution-rules-merged-across-arity"
     return None
 
 
@@ -96,11 +111,12 @@ def run_program(spec: dict[str, Any], col: common.Collector, *, variant: bool = 
                       f"deduplicate raised {type(e).__name__}: {str(e)[:160]}", wit)
         return None
     # -- code generation
+    bp = None
     try:
         bp = ctarget.generate(dag)
         cp = ctarget.compile_program(bp)
     except ctarget.CodegenFailure as f:
-        lim = loopy_limitation(f.stage, f.exc, f.detail)
+        lim = loopy_limitation(f.stage, f.exc, f.detail, bp)
         if lim is not None:
             col.histo("outside_fragment", lim)
             return None
